@@ -31,7 +31,25 @@ def short(qualname):
 def announce_call(I, con, args, kwargs):
     """records that the call was made (before anything the callee does, before any suspension in it)"""
     _observe(I, "call:" + (con.effect_name or con.qualname), tuple(args))
+    _call_asserts(I, con.effect_name or con.qualname, args, kwargs)
     I.ctx.emit("call", con.effect_name or con.qualname, tuple(args), dict(kwargs))
+
+
+def _call_asserts(I, name, args, kwargs):
+    ctl = getattr(I, "await_ctl", None)
+    if ctl is None:
+        return
+    for ename, cid, lam in getattr(ctl.con, "effect_asserts", []):
+        if ename != name:
+            continue
+        b = dict(ctl.bindings)
+        b["fx"] = list(I.ctx.fx)
+        b["eargs"] = tuple(args)
+        b["ekwargs"] = dict(kwargs)
+        env_ = getattr(I, "_await_env", None)
+        names = _params(lam)
+        I.ctx.check_obligation(f"{ctl.con.qualname}::at[{name}].{cid}",
+                               eval_clause(I, lam, {n: b[n] for n in names if n in b}, old_view=I.entry_old_view))
 
 
 def apply_contract(I, con, f, args, kwargs, bound_self, caller=None, announced=False):
@@ -118,7 +136,7 @@ def apply_contract(I, con, f, args, kwargs, bound_self, caller=None, announced=F
     b2["result"] = result
     b2["raised"] = None
     for cid, lam, on in con.ensures_:
-        if on not in ("return", "any"):
+        if on not in ("return", "any") or cid in con.proof_only:
             continue
         if _mentions(lam, "fx"):
             continue
